@@ -272,3 +272,16 @@ func vfCorpus(worlds []vfWorld, rng *rand.Rand, perWorld int, gen bool) []vfReq 
 }
 
 func vfHash(b []byte) uint64 { h := fnv.New64a(); h.Write(b); return h.Sum64() }
+
+type vfAns struct {
+	code int
+	ct   string
+	hash uint64
+	n    int
+}
+
+func vfAnswer(s *Server, q vfReq) vfAns {
+	r := vfGet(s, q.URL)
+	return vfAns{r.Code, r.Hdr.Get("Content-Type"), vfHash(r.Body), len(r.Body)}
+}
+
